@@ -10,6 +10,7 @@
 package zzsimrt
 
 import (
+	"reflect"
 	"runtime"
 	"syscall"
 	"unsafe"
@@ -203,6 +204,41 @@ func Blocked() {
 		return
 	}
 	Yield(KBlocked)
+}
+
+// WaitSend is inserted by the instrumenter before every channel send in the
+// library. Under the baton only one client runs at a time, so once the channel
+// has room the send that follows cannot block; while it has none the client
+// yields like one spinning on a lock (and a deadlock is detected the same,
+// exact way). Only buffered channels used between caller goroutines are
+// supported (semaphores, free lists).
+func WaitSend(ch interface{}) {
+	v := reflect.ValueOf(ch)
+	if v.Kind() != reflect.Chan || v.IsNil() {
+		return
+	}
+	if v.Cap() == 0 {
+		fatal("zzsimrt: the library uses an unbuffered channel; the simulator must be extended before it can judge this tree")
+	}
+	Point()
+	for v.Len() == v.Cap() {
+		Blocked()
+	}
+}
+
+// WaitRecv is the counterpart for channel receives.
+func WaitRecv(ch interface{}) {
+	v := reflect.ValueOf(ch)
+	if v.Kind() != reflect.Chan || v.IsNil() {
+		return
+	}
+	if v.Cap() == 0 {
+		fatal("zzsimrt: the library uses an unbuffered channel; the simulator must be extended before it can judge this tree")
+	}
+	Point()
+	for v.Len() == 0 {
+		Blocked()
+	}
 }
 
 // Grant lets client id run for at most slice points (slice<=0: until it
